@@ -808,46 +808,57 @@ mod sx {
         (r1 + r2, b2.map(|b| format!("(cleanup due at every acquisition) {}", b)))
     }
     fn stress_phase(threads: usize, millis: u64, aggressive: bool) -> (u64, Option<String>) {
-        use std::sync::atomic::{AtomicBool, AtomicU64, Ordering};
-        let all: Vec<Q> = vec![Q::Check(0), Q::Check(2), Q::Check(6), Q::Check(8), Q::Check(9), Q::Check(10), Q::Csp, Q::CspGh, Q::CspGhP, Q::Cosmetic, Q::CosmeticGh, Q::Hidden];
+        use std::sync::atomic::{AtomicBool, AtomicU64, AtomicUsize, Ordering};
+        let all: Arc<Vec<Q>> = Arc::new(vec![Q::Check(0), Q::Check(2), Q::Check(6), Q::Check(8), Q::Check(9), Q::Check(10), Q::Csp, Q::CspGh, Q::CspGhP, Q::Cosmetic, Q::CosmeticGh, Q::Hidden]);
         // default discard policy: the queries are fast, which is what makes overlaps likely
         let mut e = Engine::from_rules_parametrised(RULES, Default::default(), true, false);
         e.use_tags(&["t"]);
         if aggressive {
             e.set_regex_discard_policy(RegexManagerDiscardPolicy { cleanup_interval: Duration::from_nanos(1), discard_unused_time: Duration::ZERO });
         }
-        let expect: Vec<String> = all.iter().map(|q| ask(&e, *q)).collect();
-        let stop = AtomicBool::new(false);
-        let rounds = AtomicU64::new(0);
-        let first_bad: Mutex<Option<String>> = Mutex::new(None);
-        let (e, all, expect, stop, rounds, first_bad) = (&e, &all, &expect, &stop, &rounds, &first_bad);
-        std::thread::scope(|sc| {
-            for t in 0..threads {
-                sc.spawn(move || {
-                    let mut k = t * 3;
-                    while !stop.load(Ordering::Relaxed) {
-                        // csp queries are taken twice as often (two pages alternate quickly)
-                        let i = if k % 2 == 0 { 6 + (k / 2) % 3 } else { k % all.len() };
-                        k += 1;
-                        let got = vh::util::catch(|| ask(e, all[i])).unwrap_or_else(|loc| format!("panic@{}", loc));
-                        rounds.fetch_add(1, Ordering::Relaxed);
-                        if got != expect[i] {
-                            let mut g = first_bad.lock().unwrap();
-                            if g.is_none() {
-                                *g = Some(format!("{:?}: concurrent answer {} but a single thread is told {}", all[i], got, expect[i]));
-                            }
-                            stop.store(true, Ordering::Relaxed);
+        let expect: Arc<Vec<String>> = Arc::new(all.iter().map(|q| ask(&e, *q)).collect());
+        let e = Arc::new(e);
+        let stop = Arc::new(AtomicBool::new(false));
+        let rounds = Arc::new(AtomicU64::new(0));
+        let returned = Arc::new(AtomicUsize::new(0));
+        let first_bad: Arc<Mutex<Option<String>>> = Arc::new(Mutex::new(None));
+        // detached threads (not a scope): without a scheduler nothing can wake threads that block
+        // each other, and a scope would wait for them for ever; the controller only waits a grace period
+        for t in 0..threads {
+            let (e, all, expect, stop, rounds, returned, first_bad) = (e.clone(), all.clone(), expect.clone(), stop.clone(), rounds.clone(), returned.clone(), first_bad.clone());
+            std::thread::spawn(move || {
+                let mut k = t * 3;
+                while !stop.load(Ordering::Relaxed) {
+                    // csp queries are taken twice as often (two pages alternate quickly)
+                    let i = if k % 2 == 0 { 6 + (k / 2) % 3 } else { k % all.len() };
+                    k += 1;
+                    let got = vh::util::catch(|| ask(&e, all[i])).unwrap_or_else(|loc| format!("panic@{}", loc));
+                    rounds.fetch_add(1, Ordering::Relaxed);
+                    if got != expect[i] {
+                        let mut g = first_bad.lock().unwrap();
+                        if g.is_none() {
+                            *g = Some(format!("{:?}: concurrent answer {} but a single thread is told {}", all[i], got, expect[i]));
                         }
+                        stop.store(true, Ordering::Relaxed);
                     }
-                });
-            }
-            let t0 = std::time::Instant::now();
-            while t0.elapsed().as_millis() < millis as u128 && !stop.load(Ordering::Relaxed) {
-                std::thread::sleep(Duration::from_millis(5));
-            }
-            stop.store(true, Ordering::Relaxed);
-        });
-        let bad = first_bad.lock().unwrap().clone();
+                }
+                returned.fetch_add(1, Ordering::Relaxed);
+            });
+        }
+        let t0 = std::time::Instant::now();
+        while t0.elapsed().as_millis() < millis as u128 && !stop.load(Ordering::Relaxed) {
+            std::thread::sleep(Duration::from_millis(5));
+        }
+        stop.store(true, Ordering::Relaxed);
+        let grace = std::time::Instant::now();
+        while returned.load(Ordering::Relaxed) < threads && grace.elapsed().as_secs() < 10 {
+            std::thread::sleep(Duration::from_millis(5));
+        }
+        let back = returned.load(Ordering::Relaxed);
+        let mut bad = first_bad.lock().unwrap().clone();
+        if back < threads && bad.is_none() {
+            bad = Some(format!("{} of {} free-running threads did not come back within 10 s of the stop signal: they block each other (deadlock)", threads - back, threads));
+        }
         (rounds.load(Ordering::Relaxed), bad)
     }
 
